@@ -187,6 +187,300 @@ func ens_bh_err(err error) bool { return spec_errKeepsRoot(err) }
 
 //@ assigns (*Protocol).readBasicHeader ghost.rd(v.r), ghost.ioerr
 
+// ---------- C01/C02: one chunk's payload (5.3.1: a chunk carries at most chunk-size bytes of its message) ----------
+
+func oldspec_payload(m *Message) []byte { return m.Payload }
+
+// the state the reader keeps for a chunk stream while a message is being reassembled
+func spec_wfPartial(v *Protocol, chunk *chunkStream) bool {
+	if v.r == nil || v.input.opt == nil || chunk == nil || chunk.message == nil {
+		return false
+	}
+	m := chunk.message
+	return m.payloadLength < 1<<24 && (len(m.Payload) < int(m.payloadLength) || len(m.Payload) == 0 && m.payloadLength == 0)
+}
+
+func spec_chunkLen(remaining int, chunkSize uint32) int {
+	if remaining > int(chunkSize) {
+		return int(chunkSize)
+	}
+	return remaining
+}
+
+//@ requires (*Protocol).readMessagePayload
+func req_readMessagePayload(v *Protocol, chunk *chunkStream) bool { return spec_wfPartial(v, chunk) }
+
+// exactly min(remaining, input chunk size) bytes are consumed and appended; the message is handed out iff complete
+func spec_rmpN(v *Protocol, msg *Message) int {
+	return spec_chunkLen(int(msg.payloadLength)-len(oldspec_payload(msg)), v.input.opt.chunkSize)
+}
+
+//@ ensures (*Protocol).readMessagePayload C01.read.payload.accepts C02.read.payload.accepts
+func ens_rmp_accepts(v *Protocol, old_chunk chunkStream, m *Message, err error) bool {
+	n := spec_rmpN(v, old_chunk.message)
+	return (err != nil) == (ghost_rd_len(v.r)-ghost_old_rd_pos(v.r) < n)
+}
+
+//@ ensures (*Protocol).readMessagePayload C01.read.payload.advance C02.read.payload.advance
+func ens_rmp_advance(v *Protocol, old_chunk chunkStream, err error) bool {
+	msg := old_chunk.message
+	n := spec_rmpN(v, msg)
+	return err != nil || ghost_rd_pos(v.r) == ghost_old_rd_pos(v.r)+n && len(msg.Payload) == len(oldspec_payload(msg))+n
+}
+
+//@ ensures (*Protocol).readMessagePayload C01.read.payload.prefix C02.read.payload.prefix
+func ens_rmp_prefix(v *Protocol, old_chunk chunkStream, err error) bool {
+	msg := old_chunk.message
+	oldp := oldspec_payload(msg)
+	return err != nil || len(msg.Payload) >= len(oldp) && prim_eqbytes(msg.Payload[:len(oldp)], oldp)
+}
+
+//@ ensures (*Protocol).readMessagePayload C01.read.payload.appended C02.read.payload.appended
+func ens_rmp_appended(v *Protocol, old_chunk chunkStream, err error) bool {
+	msg := old_chunk.message
+	r, p, k := v.r, ghost_old_rd_pos(v.r), len(oldspec_payload(msg))
+	return err != nil || prim_forall(len(msg.Payload)-k, func(i int) bool { return msg.Payload[k+i] == ghost_rd_at(r, p+i) })
+}
+
+//@ ensures (*Protocol).readMessagePayload C01.read.payload.completion C02.read.payload.completion
+func ens_rmp_completion(chunk *chunkStream, old_chunk chunkStream, m *Message, err error) bool {
+	msg := old_chunk.message
+	if err != nil {
+		return m == nil
+	}
+	if len(msg.Payload) == int(msg.payloadLength) {
+		return m == msg && chunk.message == nil
+	}
+	return m == nil && chunk.message == msg
+}
+
+//@ ensures (*Protocol).readMessagePayload C08.rtmp.read-payload
+func ens_rmp_err(m *Message, err error) bool { return spec_errKeepsRoot(err) && (err == nil || m == nil) }
+
+//@ assigns (*Protocol).readMessagePayload chunk.message, chunk.message.Payload, ghost.rd(v.r), ghost.ioerr
+
+// ---------- C02: chunk message header (5.3.1.2, 5.3.1.3) ----------
+
+func spec_be24(r io.Reader, p int) uint32 {
+	return uint32(ghost_rd_at(r, p))<<16 | uint32(ghost_rd_at(r, p+1))<<8 | uint32(ghost_rd_at(r, p+2))
+}
+func spec_be32(r io.Reader, p int) uint32 {
+	return uint32(ghost_rd_at(r, p))<<24 | uint32(ghost_rd_at(r, p+1))<<16 | uint32(ghost_rd_at(r, p+2))<<8 | uint32(ghost_rd_at(r, p+3))
+}
+func spec_le32(r io.Reader, p int) uint32 {
+	return uint32(ghost_rd_at(r, p)) | uint32(ghost_rd_at(r, p+1))<<8 | uint32(ghost_rd_at(r, p+2))<<16 | uint32(ghost_rd_at(r, p+3))<<24
+}
+func spec_mhLen(f formatType) int {
+	switch f {
+	case 0:
+		return 11
+	case 1:
+		return 7
+	case 2:
+		return 3
+	}
+	return 0
+}
+
+// what the reader's per-chunk-stream state must satisfy (established by ReadMessage and by earlier headers)
+func spec_wfChunk(v *Protocol, chunk *chunkStream, format formatType) bool {
+	if v.r == nil || chunk == nil || format > 3 {
+		return false
+	}
+	if chunk.cid != chunk.header.betterCid || chunk.header.Timestamp >= 1<<31 {
+		return false
+	}
+	return chunk.message == nil || chunk.message.payloadLength == chunk.header.payloadLength
+}
+
+//@ requires (*Protocol).readMessageHeader
+func req_rmh(v *Protocol, chunk *chunkStream, format formatType) bool { return spec_wfChunk(v, chunk, format) }
+
+// the streams the reader must refuse: a new chunk stream not starting with type 0 (except the documented librtmp
+// ping: type 1 on chunk stream 2), a type-0 header inside an unfinished message, a length changed mid-message
+func spec_mhMustReject(o chunkStream, f formatType, r io.Reader, p int) bool {
+	if o.count == 0 && f != 0 && !(o.header.betterCid == 2 && f == 1) {
+		return true
+	}
+	if o.message != nil && f == 0 {
+		return true
+	}
+	return o.message != nil && f == 1 && spec_be24(r, p+3) != o.header.payloadLength
+}
+
+//@ ensures (*Protocol).readMessageHeader C02.mh.reject
+func ens_rmh_reject(v *Protocol, old_chunk chunkStream, format formatType, err error) bool {
+	if spec_mhMustReject(old_chunk, format, v.r, ghost_old_rd_pos(v.r)) {
+		return err != nil
+	}
+	return true
+}
+
+// the 24-bit timestamp field of a type 0/1/2 header, and whether an extended timestamp follows
+func spec_mhExt(o chunkStream, f formatType, r io.Reader, p int) bool {
+	if f <= 2 {
+		return spec_be24(r, p) == 0xffffff
+	}
+	return o.extendedTimestamp
+}
+
+// everything else is accepted as soon as the header bytes are there
+//@ ensures (*Protocol).readMessageHeader C02.mh.accepts
+func ens_rmh_accepts(v *Protocol, old_chunk chunkStream, format formatType, err error) bool {
+	r, p := v.r, ghost_old_rd_pos(v.r)
+	if spec_mhMustReject(old_chunk, format, r, p) {
+		return true
+	}
+	n := spec_mhLen(format)
+	if ghost_rd_len(r)-p < n {
+		return err != nil
+	}
+	if spec_mhExt(old_chunk, format, r, p) {
+		n += 4
+	}
+	return (err == nil) == (ghost_rd_len(r)-p >= n) && (err != nil || ghost_rd_pos(r) == p+n)
+}
+
+// fields present in the header replace the cached ones, absent ones are inherited; the message under reassembly
+// carries the updated header; the chunk stream now accepts types 1-3
+//@ ensures (*Protocol).readMessageHeader C02.mh.fields
+func ens_rmh_fields(v *Protocol, chunk *chunkStream, old_chunk chunkStream, format formatType, err error) bool {
+	if err != nil {
+		return true
+	}
+	r, p, o, h := v.r, ghost_old_rd_pos(v.r), old_chunk.header, chunk.header
+	if format <= 1 {
+		if h.payloadLength != spec_be24(r, p+3) || byte(h.MessageType) != ghost_rd_at(r, p+6) {
+			return false
+		}
+	} else if h.payloadLength != o.payloadLength || h.MessageType != o.MessageType {
+		return false
+	}
+	if format == 0 {
+		if h.streamID != spec_le32(r, p+7) {
+			return false
+		}
+	} else if h.streamID != o.streamID {
+		return false
+	}
+	return h.betterCid == o.betterCid && chunk.count == old_chunk.count+1 && chunk.message != nil && chunk.message.messageHeader == h &&
+		(old_chunk.message == nil || chunk.message == old_chunk.message)
+}
+
+// timestamps (reduced to 31 bits): type 0 absolute; type 1/2 previous + delta; type 3 starting a message: previous +
+// cached delta; type 3 continuing a message: unchanged
+//@ ensures (*Protocol).readMessageHeader C02.mh.timestamp
+func ens_rmh_timestamp(v *Protocol, chunk *chunkStream, old_chunk chunkStream, format formatType, err error) bool {
+	r, p, o := v.r, ghost_old_rd_pos(v.r), old_chunk.header
+	if err != nil || spec_mhExt(old_chunk, format, r, p) {
+		return true
+	}
+	ts := chunk.header.Timestamp
+	switch {
+	case format == 0:
+		return ts == uint64(spec_be24(r, p)) && chunk.header.timestampDelta == spec_be24(r, p)
+	case format <= 2:
+		return ts == (o.Timestamp+uint64(spec_be24(r, p)))&0x7fffffff && chunk.header.timestampDelta == spec_be24(r, p)
+	case old_chunk.message == nil:
+		return ts == (o.Timestamp+uint64(o.timestampDelta))&0x7fffffff
+	}
+	return ts == o.Timestamp
+}
+
+// extended timestamp (5.3.1.3): a type-0 header carries the absolute 32-bit timestamp there
+//@ ensures (*Protocol).readMessageHeader C02.mh.timestamp-ext0
+func ens_rmh_timestampExt0(v *Protocol, chunk *chunkStream, format formatType, err error) bool {
+	r, p := v.r, ghost_old_rd_pos(v.r)
+	if err != nil || format != 0 || spec_be24(r, p) != 0xffffff {
+		return true
+	}
+	return chunk.header.Timestamp == uint64(spec_be32(r, p+11)&0x7fffffff) && chunk.extendedTimestamp
+}
+
+// ... and a type-1/2 header carries the 32-bit timestamp DELTA there
+//@ ensures (*Protocol).readMessageHeader C02.mh.timestamp-ext-delta
+func ens_rmh_timestampExtDelta(v *Protocol, chunk *chunkStream, old_chunk chunkStream, format formatType, err error) bool {
+	r, p := v.r, ghost_old_rd_pos(v.r)
+	if err != nil || format == 0 || format == 3 || spec_be24(r, p) != 0xffffff {
+		return true
+	}
+	return chunk.header.Timestamp == (old_chunk.header.Timestamp+uint64(spec_be32(r, p+spec_mhLen(format))))&0x7fffffff
+}
+
+//@ ensures (*Protocol).readMessageHeader C08.rtmp.read-message-header
+func ens_rmh_err(err error) bool { return spec_errKeepsRoot(err) }
+
+//@ assigns (*Protocol).readMessageHeader chunk.*, chunk.message.messageHeader, ghost.rd(v.r), ghost.ioerr
+
+// ---------- C01/C02/C08: ReadMessage - one loop iteration is one chunk ----------
+
+func prim_mapall_chunks(m map[chunkID]*chunkStream, f func(k chunkID, c *chunkStream) bool) bool {
+	for k, c := range m {
+		if !f(k, c) {
+			return false
+		}
+	}
+	return true
+}
+
+// cached state of one chunk stream between chunks
+func spec_wfChunkState(c *chunkStream) bool {
+	if c == nil || c.cid != c.header.betterCid || c.header.Timestamp >= 1<<31 || c.header.payloadLength >= 1<<24 {
+		return false
+	}
+	m := c.message
+	return m == nil || m.payloadLength == c.header.payloadLength && len(m.Payload) < int(m.payloadLength)
+}
+
+// the reader side of a Protocol as NewProtocol builds it and ReadMessage maintains it
+func spec_wfReader(v *Protocol) bool {
+	return v.r != nil && v.input.opt != nil && v.input.chunks != nil &&
+		prim_mapall_chunks(v.input.chunks, func(k chunkID, c *chunkStream) bool { return spec_wfChunkState(c) })
+}
+
+//@ requires (*Protocol).ReadMessage
+func req_ReadMessage(v *Protocol) bool { return spec_wfReader(v) }
+
+//@ invariant (*Protocol).ReadMessage 0
+func inv_ReadMessage(v *Protocol) bool { return spec_wfReader(v) }
+
+// a message is only ever returned complete (never truncated), and with a nil error
+//@ ensures (*Protocol).ReadMessage C01.read.message-complete C08.rtmp.read-message.complete
+func ens_ReadMessage_complete(m *Message, err error) bool {
+	if err != nil {
+		return m == nil
+	}
+	return m != nil && len(m.Payload) == int(m.payloadLength)
+}
+
+//@ ensures (*Protocol).ReadMessage C08.rtmp.read-message
+func ens_ReadMessage_err(err error) bool { return spec_errKeepsRoot(err) }
+
+// the reader side stays well formed (so the next call starts from a consistent per-chunk-stream state)
+//@ ensures (*Protocol).ReadMessage C02.read.state-preserved
+func ens_ReadMessage_state(v *Protocol, err error) bool { return err != nil || spec_wfReader(v) }
+
+//@ assigns (*Protocol).ReadMessage v.input.chunks[*], any(chunkStream), any(Message), any(settings), ghost.rd(v.r), ghost.ioerr
+
+// the peer's Set Chunk Size (5.4.1) takes effect on the reader as soon as the message has arrived
+//@ requires (*Protocol).onMessageArrivated
+func req_onMessage(v *Protocol, m *Message) bool { return m != nil && v.input.opt != nil }
+
+//@ ensures (*Protocol).onMessageArrivated C01.scs.peer
+func ens_onMessage_scs(v *Protocol, m *Message, err error) bool {
+	if err != nil || m.MessageType != MessageTypeSetChunkSize || len(m.Payload) < 4 {
+		return true
+	}
+	p := m.Payload
+	return v.input.opt.chunkSize == uint32(p[0])<<24|uint32(p[1])<<16|uint32(p[2])<<8|uint32(p[3])
+}
+
+// errors of this step are decoding errors of a control message, not transport errors
+//@ ensures (*Protocol).onMessageArrivated C08.rtmp.on-message
+func ens_onMessage_err(err error) bool { return ghost_ioerr() == ghost_old_ioerr() }
+
+//@ assigns (*Protocol).onMessageArrivated v.input.opt.chunkSize
+
 // ---------- C03: protocol control packets (5.4) and user control (6.2) ----------
 
 //@ ensures (*SetChunkSize).Size C03.scs.size
@@ -326,3 +620,7 @@ func lemma_C03_userControlRoundtrip(p *UserControl, rest []byte) bool {
 //@ safe (*SetPeerBandwidth).UnmarshalBinary C07
 //@ safe (*UserControl).UnmarshalBinary C07
 //@ safe (*Protocol).readBasicHeader C07
+//@ safe (*Protocol).readMessageHeader C07
+//@ safe (*Protocol).readMessagePayload C07
+//@ safe (*Protocol).ReadMessage C07
+//@ safe (*Protocol).onMessageArrivated C07
